@@ -86,7 +86,7 @@ CLAIMS.update({
         "note": "The iff of the first sentence (redundancy exactly when unreachable) is not decided.",
     },
     "C18": {
-        "text": "Decides that every callee form of a call that can name a declaration with parameters (variable, member access, leading-dot variant) translates its arguments from the checker's reorder table, which is where names and defaults are resolved (CALL-SIBLING).",
+        "text": "Decides that every callee form of a call that can name a declaration with parameters (variable, member access, leading-dot variant) translates its arguments from the checker's reorder table, which is where names and defaults are resolved, and the frame analyses (locals, captures) walk that same list (CALL-SIBLING); every misuse class - unknown name, duplicate, positional after named, missing required, surplus - has a diagnostic exit and the reorder step never panics on a user-supplied name, fills defaults only into empty slots and reads out in slot order (ARG-MISUSE).",
         "note": "calculate_named_arg_order as an algorithm and the misuse diagnostics are not decided.",
     },
     "C19": {
